@@ -86,6 +86,11 @@ func coreSuite() []modelSpec {
 	add("TypeCharacter", "Character NUL", func(m *model) *Obj { return m.char("\x00") })
 	add("TypeCharacter", "Character last code point", func(m *model) *Obj { return m.char("\U0010FFFF") })
 	add("TypePredicate", "Predicate", func(m *model) *Obj { return m.predicate("__pred0()") })
+	add("TypePredicate", "Predicate with layout around it", func(m *model) *Obj { return m.predicate("\n\t__pred0()\n") })
+	add("TypePredicate", "Predicate ending in a line comment", func(m *model) *Obj { return m.predicate("__pred0() // why\n") })
+	add("TypePredicate", "Predicate with a line comment inside, in a sequence", func(m *model) *Obj {
+		return m.seq(m.opaqueChild(true, false), m.predicate("__pred0() && // first\n true"), m.opaqueChild(true, false))
+	})
 	add("TypeStateChange", "StateChange", func(m *model) *Obj { return m.state("__st0()") })
 	add("TypeNil", "Nil inside a sequence", func(m *model) *Obj { return m.seq(m.opaqueChild(true, false), m.nilNode()) })
 	add("TypeAction", "Action (reference to its rule)", func(m *model) *Obj {
